@@ -242,6 +242,17 @@ func slNewCoreEnv(ctx context.Context, u *slUniverse, latest int, tmp string) (*
 	return &slCoreEnv{u: u, latest: latest, lc: lc, prov: prov}, nil
 }
 
+// slNewCoreWith builds a Core over the environment's light client and the given provider.
+func slNewCoreWith(env *slCoreEnv, prov consensusAPI.Backend) *stateless.Core {
+	c := stateless.NewCore(prov, env.lc, stateless.Config{ChainID: env.u.chainID, ChainContext: env.u.chainID})
+	var q cmtconsensus.QueryFactory
+	if env.u.state != nil {
+		q = cmtconsensus.NewLightQueryFactory(c, env.u.state)
+	}
+	c.SetQueriers(nil, q, nil)
+	return c
+}
+
 func (env *slCoreEnv) newCore() *stateless.Core {
 	c := stateless.NewCore(env.prov, env.lc, stateless.Config{ChainID: env.u.chainID, ChainContext: env.u.chainID})
 	var q cmtconsensus.QueryFactory
